@@ -193,6 +193,46 @@ func c19Events(nlive int) []c19ev {
 			}
 			return -1, [][]int{ax}, true
 		})
+		// no-op transposes with caller-owned axes: nothing to do must also mean nothing retained
+		un("SafeTIdentity", func(w *c19world, t *tensor.Dense) (int, [][]int, bool) {
+			if len(w.live) >= 4 || t.Dims() < 1 {
+				return -1, nil, false
+			}
+			id := make([]int, t.Dims())
+			for k := range id {
+				id[k] = k
+			}
+			ax := mkSlice(id...)
+			r, err := t.SafeT(ax...)
+			if err == nil && r != nil {
+				w.add(r, -1)
+				return len(w.live) - 1, [][]int{ax}, true
+			}
+			return -1, [][]int{ax}, true
+		})
+		un("TIdentity", func(w *c19world, t *tensor.Dense) (int, [][]int, bool) {
+			if t.Dims() < 1 {
+				return -1, nil, false
+			}
+			id := make([]int, t.Dims())
+			for k := range id {
+				id[k] = k
+			}
+			ax := mkSlice(id...)
+			t.T(ax...)
+			return i, [][]int{ax}, true
+		})
+		un("RollAxisSafeNoop", func(w *c19world, t *tensor.Dense) (int, [][]int, bool) {
+			if len(w.live) >= 4 || t.Dims() < 1 {
+				return -1, nil, false
+			}
+			r, err := t.RollAxis(0, 0, true)
+			if err == nil && r != nil && r != t {
+				w.add(r, -1)
+				return len(w.live) - 1, nil, true
+			}
+			return -1, nil, true
+		})
 		un("NegUnsafe", func(w *c19world, t *tensor.Dense) (int, [][]int, bool) {
 			tensor.Neg(t, tensor.UseUnsafe())
 			return i, nil, true
